@@ -257,5 +257,30 @@ pub fn gen(out: &mut dyn Write, seed: u64, thorough: bool) {
             writeln!(out, "P first {} {} => {}", fmt_idx(l), n, ans).unwrap();
         }
     }
+    // the builder's own default list (no `with_symbol_list`): must behave as the standard's 30 sizes
+    {
+        // (that `SymbolList::default()` is exactly the 30 sizes of ISO/IEC 16022 is checked above and proved in C12)
+        let std30: Vec<usize> = SymbolList::default().iter().map(size_index).collect();
+        let mut ns: Vec<usize> = (0..=120).collect();
+        ns.extend((121..=1560).step_by(if thorough { 1 } else { 29 }));
+        for n in ns {
+            let data = vec![b'a'; n];
+            let r = guarded(move || DataMatrixBuilder::new().with_encodation_types(EncodationType::Ascii).encode(&data));
+            let ans = match r {
+                Ok(Ok(dm)) => size_index(dm.size).to_string(),
+                Ok(Err(_)) => "none".into(),
+                Err(_) => "panic".into(),
+            };
+            writeln!(out, "P first {} {} => {}", fmt_idx(&std30), n, ans).unwrap();
+            let data = vec![b'a'; n];
+            let r = guarded(move || DataMatrixBuilder::default().with_encodation_types(EncodationType::Ascii).encode(&data));
+            let ans = match r {
+                Ok(Ok(dm)) => size_index(dm.size).to_string(),
+                Ok(Err(_)) => "none".into(),
+                Err(_) => "panic".into(),
+            };
+            writeln!(out, "P first {} {} => {}", fmt_idx(&std30), n, ans).unwrap();
+        }
+    }
     let _ = SymbolSize::Square10;
 }
